@@ -41,6 +41,18 @@ func (cw *CodeWriter) WriteRune(r rune) {
 	}
 }
 
+// SeparateSign writes a space when the operator about to be written starts
+// with the sign character that was written last: without it the two would be
+// read back as one token (a - -b as a--b, a + ++b as a+++b, -(-x) as --x).
+func (cw *CodeWriter) SeparateSign(op string) {
+	if len(op) == 0 || (op[0] != '+' && op[0] != '-') || len(cw.pendings) > 0 {
+		return
+	}
+	if written := cw.Builder.String(); len(written) > 0 && written[len(written)-1] == op[0] {
+		cw.WriteRune(' ')
+	}
+}
+
 // WriteSemi writes a semicolon if WriteSemicolons is true.
 func (cw *CodeWriter) WriteSemi() {
 	if !cw.PrettyPrint {
